@@ -88,7 +88,11 @@ def sha(*parts):
 @contextlib.contextmanager
 def quiet_fds(capture_path=None):
     """Silence (or capture to a file) fd 1 and 2 — the tools, tqdm and pool workers print a lot."""
-    sys.stdout.flush(); sys.stderr.flush()
+    for stream in (sys.stdout, sys.stderr):
+        try:
+            stream.flush()
+        except (AttributeError, ValueError):     # a write-only stand-in (runner._call_in_context)
+            pass
     so, se = os.dup(1), os.dup(2)
     target = os.open(capture_path or os.devnull, os.O_WRONLY | os.O_CREAT | os.O_TRUNC, 0o644)
     old_out, old_err = sys.stdout, sys.stderr
